@@ -428,11 +428,22 @@ pub fn orders_of(scn: &Scn) -> (Vec<Vec<usize>>, bool) {
 }
 
 pub fn render_doc(scn: &Scn, order: &[usize]) -> String {
-    let mut s = String::from("<svg>\n  <specs><rect id=\"tpl\" wh=\"3 2\"/></specs><var k=\"7\"/>\n");
+    let mut s = String::from("<svg>\n");
+    // an inert sibling which comes first in the order is the very first child of the root
+    let lead = order.first().filter(|i| scn.nodes[**i].kind == "aux-inert").copied();
+    if let Some(i) = lead {
+        s.push_str("  ");
+        s.push_str(&scn.nodes[i].xml);
+        s.push('\n');
+    }
+    s.push_str("  <specs><rect id=\"tpl\" wh=\"3 2\"/></specs><var k=\"7\"/>\n");
     if scn.defaults {
         s.push_str("  <defaults><rect dx=\"3\"/><circle dy=\"2\"/><_ match=\"ellipse line\" dxy=\"1 -1\"/></defaults>\n");
     }
     for i in order {
+        if Some(*i) == lead {
+            continue;
+        }
         s.push_str("  ");
         s.push_str(&scn.nodes[*i].xml);
         s.push('\n');
